@@ -372,6 +372,10 @@ OF_FUNCTION = {"multi": "compute_multiorder_laplacian", "incall": "incidence_mat
                "rowmap": "row_mapping"}
 
 
+PER_ORDER_TEMPORAL = ("temporal_adjacency_matrices_all_orders", "temporal_adjacency_matrix_by_order",
+                      "annealed_adjacency_matrices_all_orders")
+
+
 def _nmats(r):
     return len(r.get("mats", [])) + len(r.get("ms", [])) + (1 if "M" in r else 0)
 
@@ -394,6 +398,9 @@ def _digest(res, seed, cases, descr, v, agg):
             sig = {"function": fn, "clauses": sorted(aspects)}
             if d["kind"] == "tempx" and fn == "adjacency_factor":
                 sig["object"] = "TemporalHypergraph"
+            if fn in PER_ORDER_TEMPORAL:
+                # the per-order adjacency is built from the WEIGHTED incidence: a weighted object is a corner of its own
+                sig["weighted"] = d["weighted"]
             res.reject(sig,
                        "%s: %s disagree(s) with MatricesX.tla for the %s%s with hyperedges %s on %d nodes labelled %s%s"
                        % (fn, ",".join(sorted(aspects)), "weighted " if d["weighted"] else "",
